@@ -94,6 +94,8 @@ def check_case(ctx, case, e, path, k):
     w["configuration"] = {n: np.asarray(v).tolist() for n, v in cfg.items()}
     w["velocities"] = {n: np.asarray(v).tolist() for n, v in vel.items()}
     write_urdf(path, case)
+    import copy
+    cfg_before, vel_before = copy.deepcopy(cfg), copy.deepcopy(vel)
     try:
         with warnings.catch_warnings(), contextlib.redirect_stdout(io.StringIO()), contextlib.redirect_stderr(io.StringIO()):
             warnings.simplefilter("ignore")
@@ -102,13 +104,26 @@ def check_case(ctx, case, e, path, k):
     except Exception as ex:
         ctx.violation(f"{key}:import:{type(ex).__name__}", f"system_from_urdf raised {type(ex).__name__}: {ex} for {w}", w)
         return False
+    if k % 3 == 0 and (cfg_before or vel_before):
+        # the caller's dictionaries are inputs: a second import with the SAME objects must build the same system
+        try:
+            with warnings.catch_warnings(), contextlib.redirect_stdout(io.StringIO()), contextlib.redirect_stderr(io.StringIO()):
+                warnings.simplefilter("ignore")
+                system2 = system_from_urdf(path, r_OR=np.array(root["r"], dtype=float), A_IR=rpy_matrix(root["rpy"]), v_R=np.array(root["v"], dtype=float),
+                                           R_omega_IR=np.array(root["wR"], dtype=float), configuration=cfg, velocities=vel, root_is_floating=bool(root["floating"]))
+            same = system2.nq == system.nq and np.allclose(system2.q0, system.q0, atol=1e-12) and np.allclose(system2.u0, system.u0, atol=1e-12)
+        except Exception as ex:
+            same = False
+        if not same:
+            ctx.violation(f"{key}:second-import", f"importing the same robot again with the same configuration / velocity dictionaries gives another initial state for {w}", w)
+            return False
     t0, q0, u0 = system.t0, system.q0, system.u0
     ok = True
 
     def cmp(what, got, exp, tol=1e-9):
         nonlocal ok
         got = np.asarray(got, dtype=float); exp = np.asarray(exp, dtype=float)
-        if got.shape != exp.shape or np.max(np.abs(got - exp)) > tol:
+        if got.shape != exp.shape or not (np.max(np.abs(got - exp)) <= tol):
             ok = False
             ctx.violation(f"{key}:{what.split(' ')[0]}", f"{what}: {np.round(got, 9).tolist()} but URDF semantics give {exp.tolist()} for {w}", w)
 
